@@ -63,3 +63,34 @@ Fixpoint hook_mismatches (i : N) (l : list hook_obs) : list N :=
   | [] => []
   | o :: r => if hook_agrees o then hook_mismatches (i + 1) r else i :: hook_mismatches (i + 1) r
   end.
+
+(* ---------- the look-ahead window of llk.go vs the real LLk (driven directly by the harness) ---------- *)
+From BWGrammar Require Import LLk.
+
+(* a token is (kind, hash of its text); the pad token is lexer.Token{Type: ItemEOF} (empty text, hash 0) *)
+Definition ltok := (N * N)%type.
+Definition observe2 (l : llk ltok) : list N :=
+  flat_map (fun j => match nth_error (win ltok l) j with Some (k, h) => [k; h] | None => [] end) (seq 0 (S (la ltok l))).
+
+Fixpoint llk_run (eofk : N) (l : llk ltok) (tys : list N) : list (bool * list N) :=
+  match tys with
+  | [] => []
+  | ty :: r => let (l', b) := consume_tok ltok (eofk, 0) fst l ty in (b, observe2 l') :: llk_run eofk l' r
+  end.
+
+Definition step_eqb (a b : bool * list N) : bool := Bool.eqb (fst a) (fst b) && list_eqb N.eqb (snd a) (snd b).
+
+(* observation: tokens as lexed, k, window after NewLLk, Consume attempts, (result, window) after each *)
+Definition llk_obs := (list ltok * nat * list N * list N * list (bool * list N))%type.
+Definition llk_agrees (eofk : N) (o : llk_obs) : bool :=
+  match o with
+  | (toks, k, w0, tys, steps) =>
+      let l := new_llk ltok (eofk, 0) toks k in
+      list_eqb N.eqb (observe2 l) w0 && list_eqb step_eqb (llk_run eofk l tys) steps
+  end.
+
+Fixpoint llk_mismatches (eofk : N) (i : N) (l : list llk_obs) : list N :=
+  match l with
+  | [] => []
+  | o :: r => if llk_agrees eofk o then llk_mismatches eofk (i + 1) r else i :: llk_mismatches eofk (i + 1) r
+  end.
